@@ -1,7 +1,6 @@
 package vikja
 
 import (
-	"math"
 	"sync"
 
 	"github.com/aukilabs/hagall-common/messages/vikjapb"
@@ -57,7 +56,7 @@ func (s *State) SetEntityActionIfLatest(ea *vikjapb.EntityAction) bool {
 }
 
 // older reports whether the client timestamp of a names an earlier instant than
-// the one of b. The instants are compared as seconds and nanoseconds: converted
+// the one of b. The instants are compared in a form that cannot overflow: converted
 // to a time.Time, seconds near the top of the int64 range wrap around, and a
 // far-future action was taken for the oldest of all.
 func older(a, b *vikjapb.EntityAction) bool {
@@ -69,9 +68,11 @@ func older(a, b *vikjapb.EntityAction) bool {
 	return an < bn
 }
 
-// instant returns the seconds and the nanoseconds in [0, 1e9) of the instant a
-// timestamp names: seconds + nanos/1e9, as Timestamp.AsTime reads it, whatever
-// the nanos field holds. The seconds saturate instead of wrapping around.
+// instant returns the instant a timestamp names - seconds + nanos/1e9, as
+// Timestamp.AsTime reads it, whatever the nanos field holds - as a number of
+// periods of four seconds and the nanoseconds into the period. The seconds
+// carried over from the nanos field are added to the two low bits of the
+// seconds, so that nothing overflows at either end of the int64 range.
 func instant(ts *timestamppb.Timestamp) (int64, int64) {
 	sec, nanos := ts.GetSeconds(), int64(ts.GetNanos())
 	q := nanos / 1e9
@@ -80,15 +81,10 @@ func instant(ts *timestamppb.Timestamp) (int64, int64) {
 		nanos += 1e9
 		q--
 	}
-	switch {
-	case q > 0 && sec > math.MaxInt64-q:
-		sec = math.MaxInt64
-	case q < 0 && sec < math.MinInt64-q:
-		sec = math.MinInt64
-	default:
-		sec += q
-	}
-	return sec, nanos
+	period, rest := sec>>2, sec&3+q
+	period += rest >> 2
+	rest &= 3
+	return period, rest*1e9 + nanos
 }
 
 func (s *State) EntityAction(entityID uint32, actionName string) (*vikjapb.EntityAction, bool) {
